@@ -287,6 +287,10 @@ Die ==
   /\ lastSeq' = Max({MaxSeqIn(DiskOps), DirMaxSeq})      \* not observable while down; what recovery will compute
   /\ UNCHANGED <<live, next, nfile, retired>>
 
+\* Commit of a read-write transaction that wrote nothing (Manager.ApplyBatch with an empty batch): nothing is logged, no
+\* sequence number is consumed, the reported last sequence number stays what it is
+EmptyCommit == up /\ wpc = "idle" /\ fpc = "idle" /\ UNCHANGED vars
+
 \* EngineFacade.Close with no call in flight and no flush running: the live log is flushed and synced
 Close ==
   /\ up /\ wpc = "idle" /\ fpc = "idle"
